@@ -28,14 +28,24 @@ DIV_ON = {"enigma_csp", "cspuz_core"}
 TRUE_S, FALSE_S = {"true", "1"}, {"false", "0"}
 
 
-def conf_world(repo: Repo, environ: Dict[str, str], available: set) -> ClassWorld:
+def conf_world(repo: Repo, environ: Dict[str, str], available: set, broken: set = frozenset()) -> ClassWorld:
+    """`available`: modules whose import succeeds; `broken`: modules that are installed (a spec is found) but whose import
+    raises ImportError (missing shared library, wrong ABI): present but not importable"""
     cw = ClassWorld([repo.mod(CONF)])
 
     def imp(name: str, env: Dict[str, Any]) -> None:
-        if name in ("os", "typing"):
+        if name in ("os", "typing", "importlib", "importlib.util"):
             return
         if name not in available:
             raise Raised(f"ImportError({name})")
+
+    def find_spec(name: Any, package: Any = None) -> Any:
+        if not isinstance(name, str):
+            raise Undecided("find_spec of abstract name")
+        return Tag(f"spec:{name}") if (name in available or name in broken) else None
+
+    cw.ev.funcs["importlib.util.find_spec"] = find_spec
+    cw.ev.funcs["find_spec"] = find_spec
 
     cw.ev.funcs["__import__"] = imp
     cw.genv["os.environ.get"] = lambda k, d=None: environ.get(k, d)
@@ -83,11 +93,30 @@ def check_config(repo: Repo, rep: Report) -> None:
                 break
         if bad:
             break
+    # installed but not importable: every module is absent / broken / importable (81 combinations); only importable ones count
+    if not bad:
+        for states in itertools.product(("absent", "broken", "ok"), repeat=len(mods)):
+            if "broken" not in states:
+                continue
+            avail = {m for m, st in zip(mods, states) if st == "ok"}
+            brk = {m for m, st in zip(mods, states) if st == "broken"}
+            cw = conf_world(repo, {}, avail, brk)
+            try:
+                got = cw.call("_detect_backend")
+            except Undecided as ex:
+                rep.undecide("CFG-3", str(ex))
+                return
+            except Raised as ex:
+                bad = (avail, f"(with {sorted(brk)} installed but failing to import) raises {ex.what}")
+                break
+            if got != expected_detect(avail):
+                bad = (avail, f"(with {sorted(brk)} installed but failing to import with ImportError) returns {got!r}, expected {expected_detect(avail)!r}")
+                break
     if bad:
         rep.finding("CFG-3", CONF, "_detect_backend", "detection order",
                     f"with importable modules {sorted(bad[0])} detection {bad[1]}", repo.mod(CONF).func("_detect_backend").lineno)
     else:
-        rep.ok("CFG-3", "_detect_backend: all 16 subsets of importable modules give the documented first choice")
+        rep.ok("CFG-3", "_detect_backend: all 16 subsets of importable modules, and all 65 combinations with installed-but-unimportable modules, give the documented first choice")
     # docstring cross-check of the priority list
     doc = repo.mod(CONF).src
     m = re.search(r"priority is as follows:(.*?)For backward", doc, re.S)
